@@ -56,7 +56,32 @@ def fams_c12(tier, seed):
     ]
 
 
+def fams_c19(tier, seed):
+    if tier == "quick":
+        return [
+            Family("drain5", "exh", "DyvAc", "0,1,2", depth=5, configs=("w:s", "l:a")),
+            Family("drain4", "exh", "DSTyvABhc", "0,1,u", depth=4, configs=("b:a", "z:s")),
+            Family("rand-drain", "rand", "DSTYyvABMhc", "0,1,2,u", length=40, n=3000, configs=("w:a", "l:s")),
+        ]
+    return [
+        Family("drain6", "exh", "DyvAc", "0,1,2", depth=6, configs=("w:s", "l:a", "b:s", "z:a")),
+        Family("drain5b", "exh", "DSTyvABhc", "0,1,u", depth=5, configs=("b:a", "z:s", "w:s", "l:a")),
+        Family("rand-drain", "rand", "DSTYyvABMhc", "0,1,2,u", length=60, n=40000, configs=ALLCFG),
+    ]
+
+
 PROPS = {
+    "C19": dict(
+        level="proof",
+        lean_targets=["Kanal.Props.C19"],
+        props_files=["Kanal/Props/C19.lean"],
+        leancheck=["Kanal.Props.C19"],
+        families=fams_c19,
+        relevant=rel_ops("drain"),
+        trusted=["specgen/seqdrv text protocol", "Vec::reserve / push only affect allocation, never earlier contents (Rust std); the driver checks the prefix of a pre-filled vector on every drain"],
+        assumptions=COMMON_ASSUME + ["drain_into is one critical section (no lock release between the buffer loop and the sender loop): concurrent senders are ordered entirely before or after it"],
+        explanation="c19_drain: result = buffer ++ blocked senders' values in list order, reported count = number appended, in every state; c19_releases: exactly the taken senders are finalised ok; c19_closed; c19_receivers_waiting; c19_nonblocking",
+    ),
     "C12": dict(
         level="proof",
         lean_targets=["Kanal.Props.C12"],
